@@ -84,6 +84,7 @@ def target_names(t):
 class Facts:
     def __init__(self):
         self.logs = []      # (file, func, line, level, names, mentions_exception)
+        self.logs_ext = []  # the same + end line of the call (python side only)
         self.raises = []    # (file, func, line, class, names)
         self.assigns = []   # (file, func, line, lhs, rhs)
         self.level_switch = None
@@ -231,6 +232,7 @@ class FileWalker:
                                       any(('(' + e + ')') in x for e in exc_names) for x in names) \
                         or any(isinstance(m, ast.Name) and m.id in exc_names for a in args for m in ast.walk(a))
                     F.logs.append((self.fname, qual, n.lineno, level, names, mentions_ex))
+                    F.logs_ext.append((self.fname, qual, n.lineno, level, names, mentions_ex, n.end_lineno))
                     classified.add(id(n.func))
                     if isinstance(n.func, ast.Attribute):
                         classified.add(id(n.func.value))
@@ -434,4 +436,634 @@ Definition configured_level (verbose : bool) : Z := if verbose then {lv_true} el
     return facts
 
 
-CHECK = core.Check('C20', CLUSTER, 'Props/C20.v', translate=translate, deps=('lib',))
+
+# ---------------------------------------------------------------------------------------------
+# dynamic part: real scenarios, every secret captured, every record inspected
+
+import contextlib
+import io
+import logging
+import sys
+import time
+import traceback
+from unittest import mock
+
+PSK_ALICE = 'Zq7-psk-alice-91x#secret'
+PSK_BOB = 'Wv3-psk-bob-55k#secret'
+COOKIE_SECRET = b'cookie-secret-0f9e8d7c6b5a'
+MIN_SECRET = 8
+
+
+class Secrets:
+    """every secret the harness learns during a run, with the forms searched for"""
+
+    def __init__(self):
+        self.items = {}       # bytes -> label
+
+    def add(self, label, value):
+        if value is None:
+            return
+        if isinstance(value, str):
+            value = value.encode()
+        value = bytes(value)
+        if len(value) >= MIN_SECRET and value not in self.items:
+            self.items[value] = label
+
+    def forms(self):
+        for value, label in self.items.items():
+            yield label, 'hex', value.hex()
+            yield label, 'HEX', value.hex().upper()
+            yield label, 'raw', value.decode('latin-1')
+            r = repr(value)[2:-1]
+            if r != value.decode('latin-1'):
+                yield label, 'repr', r
+
+    def find(self, text):
+        low = text
+        return [(label, form) for label, form, needle in self.forms() if needle and needle in low]
+
+
+class Capture(logging.Handler):
+    def __init__(self):
+        super().__init__(level=logging.NOTSET)
+        self.records = []     # (levelno, text, pathname, lineno)
+        self.fmt = logging.Formatter('%(message)s')
+
+    def emit(self, record):
+        try:
+            text = self.fmt.format(record)
+        except Exception:
+            text = repr(record.msg) + repr(record.args)
+        self.records.append((record.levelno, text, record.pathname, record.lineno))
+
+
+class Run:
+    """One scenario run: logging captured at every level, secrets recorded through wrappers of the real
+    key-derivation functions, xfrm.Xfrm.send_recv mocked, stderr (traceback.print_exc) captured."""
+
+    def __init__(self):
+        self.secrets = Secrets()
+        self.capture = Capture()
+        self.wrapper_calls = []     # (filename, lineno, level) of every IkeSa.log_msg caller's caller
+        self.stderr = io.StringIO()
+        self.stack = contextlib.ExitStack()
+
+    def __enter__(self):
+        import crypto
+        import ikesa
+        import xfrm
+        st = self.stack
+        root = logging.getLogger()
+        self.saved = (root.level, list(root.handlers), getattr(logging, 'indent', None), logging.root.manager.disable)
+        for h in list(root.handlers):
+            root.removeHandler(h)
+        root.addHandler(self.capture)
+        root.setLevel(logging.DEBUG)
+        logging.disable(logging.NOTSET)
+        logging.indent = 2
+        st.enter_context(contextlib.redirect_stderr(self.stderr))
+        self.send_recv = st.enter_context(mock.patch.object(xfrm.Xfrm, 'send_recv'))
+        S = self.secrets
+        run = self
+
+        orig_ike = ikesa.IkeSa.generate_ike_sa_key_material
+
+        def gen_ike(self_, *a, **kw):
+            kr = orig_ike(self_, *a, **kw)
+            for n in ('sk_d', 'sk_ai', 'sk_ar', 'sk_ei', 'sk_er', 'sk_pi', 'sk_pr'):
+                S.add('IKE ' + n, getattr(kr, n))
+            return kr
+        st.enter_context(mock.patch.object(ikesa.IkeSa, 'generate_ike_sa_key_material', gen_ike))
+
+        orig_child = ikesa.IkeSa.generate_child_sa_key_material
+
+        def gen_child(self_, *a, **kw):
+            kr = orig_child(self_, *a, **kw)
+            for n in ('sk_ai', 'sk_ar', 'sk_ei', 'sk_er'):
+                S.add('CHILD ' + n, getattr(kr, n))
+            return kr
+        st.enter_context(mock.patch.object(ikesa.IkeSa, 'generate_child_sa_key_material', gen_child))
+
+        for cls in (crypto.MODPDH, crypto.ECDH):
+            orig = cls.compute_secret
+
+            def compute(self_, peer_public_key, _orig=orig):
+                r = _orig(self_, peer_public_key)
+                S.add('DH shared secret', self_.shared_secret)
+                return r
+            st.enter_context(mock.patch.object(cls, 'compute_secret', compute))
+
+        orig_prf = crypto.Prf.prf
+
+        def prf(self_, key, data):
+            out = orig_prf(self_, key, data)
+            # SKEYSEED = prf(Ni | Nr, g^ir) or prf(SK_d, g^ir | Ni | Nr): the call whose *data or key* is a DH secret
+            if any(bytes(sec) in bytes(data) or bytes(sec) == bytes(key) for sec, lab in list(S.items.items())
+                   if lab == 'DH shared secret'):
+                S.add('SKEYSEED', out)
+            elif bytes(key) in S.items and S.items[bytes(key)].startswith('PSK'):
+                S.add('prf(PSK, key pad)', out)
+            return out
+        st.enter_context(mock.patch.object(crypto.Prf, 'prf', prf))
+
+        orig_plus = crypto.Prf.prfplus
+
+        def prfplus(self_, key, seed, size):
+            out = orig_plus(self_, key, seed, size)
+            S.add('KEYMAT (prf+ output)', out)
+            return out
+        st.enter_context(mock.patch.object(crypto.Prf, 'prfplus', prfplus))
+
+        orig_log_msg = ikesa.IkeSa.log_msg
+
+        def log_msg(self_, level, message):
+            f = sys._getframe(1)
+            if f.f_code.co_name.startswith('log_') and f.f_back is not None:
+                f = f.f_back              # caller of the log_<level> wrapper
+            run.wrapper_calls.append((os.path.basename(f.f_code.co_filename), f.f_lineno, level))
+            return orig_log_msg(self_, level, message)
+        st.enter_context(mock.patch.object(ikesa.IkeSa, 'log_msg', log_msg))
+        return self
+
+    def __exit__(self, *a):
+        self.stack.close()
+        root = logging.getLogger()
+        root.removeHandler(self.capture)
+        for h in self.saved[1]:
+            root.addHandler(h)
+        root.setLevel(self.saved[0])
+        logging.indent = self.saved[2]
+        logging.disable(self.saved[3])
+        return False
+
+    def leaks(self):
+        """records at INFO or above (and what went to stderr) that contain a secret"""
+        out = []
+        for levelno, text, path, line in self.capture.records:
+            if levelno >= logging.INFO:
+                for label, form in self.secrets.find(text):
+                    out.append((logging.getLevelName(levelno), label, form, text, os.path.basename(path), line))
+        err = self.stderr.getvalue()
+        for label, form in self.secrets.find(err):
+            out.append(('stderr', label, form, err[-600:], 'stderr', 0))
+        return out
+
+    def debug_dump_seen(self):
+        """labels of the secrets that appear in some record (any level): the detector's sanity check"""
+        seen = set()
+        for levelno, text, path, line in self.capture.records:
+            for label, form in self.secrets.find(text):
+                seen.add(label)
+        return seen
+
+
+class World:
+    """two IkeSa objects talking to each other (the machinery of /repo/test_ikesa.py)"""
+
+    def __init__(self, run, tweak=None, rsa=False):
+        from ipaddress import ip_address
+        self.run = run
+        self.ip1, self.ip2 = ip_address('192.168.0.1'), ip_address('192.168.0.2')
+        self.confdict = {
+            'alice': {'my_addr': '192.168.0.1', 'peer_addr': '192.168.0.2',
+                      'my_auth': {'id': 'alice@openikev2', 'psk': PSK_ALICE},
+                      'peer_auth': {'id': 'bob@openikev2', 'psk': PSK_BOB},
+                      'dh': ['ecp256'], 'integ': ['sha256'], 'prf': ['sha256'],
+                      'protect': [{'index': 1, 'ip_proto': 'tcp', 'mode': 'transport', 'lifetime': 5, 'peer_port': 0,
+                                   'ipsec_proto': 'esp', 'encr': ['aes256', 'aes128']}]},
+            'bob': {'my_addr': '192.168.0.2', 'peer_addr': '192.168.0.1',
+                    'my_auth': {'id': 'bob@openikev2', 'psk': PSK_BOB},
+                    'peer_auth': {'id': 'alice@openikev2', 'psk': PSK_ALICE},
+                    'dh': ['ecp256'], 'integ': ['sha256'], 'prf': ['sha256'],
+                    'protect': [{'index': 2, 'ip_proto': 'tcp', 'mode': 'transport', 'lifetime': 5, 'peer_port': 23,
+                                 'ipsec_proto': 'esp', 'encr': ['aes256', 'aes128']}]}}
+        if rsa:
+            from props import c19
+            self.confdict['alice']['my_auth']['privkey'] = c19.PRIV1
+            self.confdict['bob']['peer_auth']['pubkey'] = c19.PUB1
+            body = ''.join(c19.PRIV1.strip().splitlines()[1:-1])
+            for i in range(0, len(body) - 48, 48):
+                run.secrets.add('RSA private key (PEM body)', body[i:i + 48])
+        if tweak:
+            tweak(self.confdict)
+        self.load()
+        from ikesa import IkeSa
+        self.sa1 = IkeSa(is_initiator=True, peer_spi=b'\0' * 8, configuration=self.conf(1), my_addr=self.ip1,
+                         peer_addr=self.ip2)
+        self.sa2 = IkeSa(is_initiator=False, peer_spi=self.sa1.my_spi, configuration=self.conf(2), my_addr=self.ip2,
+                         peer_addr=self.ip1)
+
+    def load(self):
+        from configuration import Configuration
+        self.configuration = Configuration([self.ip1, self.ip2], self.confdict)
+        for c in self.confdict.values():
+            for a in ('my_auth', 'peer_auth'):
+                self.run.secrets.add('PSK ' + c[a].get('id', ''), c[a].get('psk'))
+
+    def conf(self, who):
+        return self.configuration.get_ike_configuration(*((self.ip1, self.ip2) if who == 1 else (self.ip2, self.ip1)))
+
+    def reconfigure(self, tweak):
+        tweak(self.confdict)
+        self.load()
+        self.sa1.configuration, self.sa2.configuration = self.conf(1), self.conf(2)
+
+    def ts(self):
+        from ipaddress import ip_network
+        from message import TrafficSelector
+        return (TrafficSelector.from_network(ip_network('192.168.0.1/32'), 8765, TrafficSelector.IpProtocol.TCP),
+                TrafficSelector.from_network(ip_network('192.168.0.2/32'), 23, TrafficSelector.IpProtocol.TCP))
+
+    def pingpong(self, first, a=None, b=None, limit=8):
+        """delivers `first` (bytes from a) to b and keeps exchanging until one side has nothing to say"""
+        a, b = a or self.sa1, b or self.sa2
+        data, to = first, b
+        n = 0
+        while data is not None and n < limit:
+            data = to.process_message(data)
+            to = a if to is b else b
+            n += 1
+
+    def handshake(self):
+        tsi, tsr = self.ts()
+        self.pingpong(self.sa1.process_acquire(tsi, tsr, 1))
+        return self
+
+
+def sc_handshake(run):
+    w = World(run).handshake()
+    assert w.sa1.state.name == 'ESTABLISHED' and w.sa2.state.name == 'ESTABLISHED', (w.sa1.state, w.sa2.state)
+
+
+def sc_handshake_rsa(run):
+    World(run, rsa=True).handshake()
+
+
+def sc_create_child_with_ke(run):
+    def dh(c):
+        c['alice']['protect'][0]['dh'] = [14]
+        c['bob']['protect'][0]['dh'] = [14]
+    w = World(run).handshake()
+    w.reconfigure(dh)
+    tsi, tsr = w.ts()
+    w.pingpong(w.sa1.process_acquire(tsi, tsr, 1))
+    assert len(w.sa1.child_sas) == 2, len(w.sa1.child_sas)
+
+
+def sc_rekey_child(run):
+    w = World(run).handshake()
+    w.pingpong(w.sa1.process_expire(w.sa1.child_sas[0].inbound_spi))
+    w.pingpong(w.sa2.process_expire(w.sa2.child_sas[0].inbound_spi), w.sa2, w.sa1)
+
+
+def sc_rekey_ike_sa(run):
+    w = World(run).handshake()
+    w.sa1.rekey_ike_sa_at = time.time() - 1
+    w.pingpong(w.sa1.check_rekey_ike_sa_timer())
+    new1, new2 = w.sa1.new_ike_sa, w.sa2.new_ike_sa
+    if new1 is not None and new2 is not None and new1.child_sas:
+        w.pingpong(new1.process_expire(new1.child_sas[0].inbound_spi), new1, new2)
+
+
+def sc_informational(run):
+    w = World(run).handshake()
+    w.sa1.start_dpd_at = time.time() - 1
+    w.pingpong(w.sa1.check_dead_peer_detection_timer())
+    w.pingpong(w.sa1.process_expire(w.sa1.child_sas[0].inbound_spi, hard=True))
+    w.sa2.delete_ike_sa_at = time.time() - 1
+    w.pingpong(w.sa2.check_rekey_ike_sa_timer(), w.sa2, w.sa1)
+
+
+def sc_wrong_psk(run):
+    def bad(c):
+        c['alice']['my_auth']['psk'] = 'Xx9-wrong-psk-alice-7781'
+    w = World(run, bad).handshake()
+    assert w.sa2.state.name == 'DELETED', w.sa2.state
+
+
+def sc_wrong_psk_responder(run):
+    def bad(c):
+        c['bob']['my_auth']['psk'] = 'Yy1-wrong-psk-bob-44102'
+    World(run, bad).handshake()
+
+
+def sc_no_proposal_init(run):
+    def bad(c):
+        c['alice']['dh'] = [16]
+    World(run, bad).handshake()
+
+
+def sc_no_proposal_auth(run):
+    def bad(c):
+        c['alice']['protect'][0]['ipsec_proto'] = 'ah'
+    World(run, bad).handshake()
+
+
+def sc_invalid_ke(run):
+    def bad(c):
+        c['alice']['dh'].insert(0, 16)
+    w = World(run, bad)
+    from ikesa import IkeSa
+    tsi, tsr = w.ts()
+    req = w.sa1.process_acquire(tsi, tsr, 1)
+    res = w.sa2.process_message(req)              # INVALID_KE_PAYLOAD
+    req2 = w.sa1.process_message(res)
+    sa3 = IkeSa(is_initiator=False, peer_spi=w.sa1.my_spi, my_addr=w.ip2, peer_addr=w.ip1, configuration=w.conf(2))
+    w.pingpong(req2, w.sa1, sa3)
+
+
+def sc_child_invalid_ke(run):
+    def dh(c):
+        c['alice']['protect'][0]['dh'] = [18, 14]
+        c['bob']['protect'][0]['dh'] = [14]
+    w = World(run).handshake()
+    w.reconfigure(dh)
+    tsi, tsr = w.ts()
+    w.pingpong(w.sa1.process_acquire(tsi, tsr, 1))
+
+
+def sc_ts_unacceptable(run):
+    def bad(c):
+        c['bob']['protect'][0]['my_subnet'] = '10.0.0.0/24'
+    World(run, bad).handshake()
+    w = World(run).handshake()
+    w.reconfigure(bad)
+    tsi, tsr = w.ts()
+    w.pingpong(w.sa1.process_acquire(tsi, tsr, 1))
+
+
+def sc_cookie(run):
+    from ikesa import IkeSa
+    w = World(run)
+    w.sa2.cookie_secret = COOKIE_SECRET
+    run.secrets.add('cookie secret', COOKIE_SECRET)
+    tsi, tsr = w.ts()
+    req = w.sa1.process_acquire(tsi, tsr, 1)
+    res = w.sa2.process_message(req)
+    req2 = w.sa1.process_message(res)
+    sa3 = IkeSa(is_initiator=False, peer_spi=w.sa1.my_spi, my_addr=w.ip2, peer_addr=w.ip1, configuration=w.conf(2),
+                cookie_secret=COOKIE_SECRET)
+    w.pingpong(req2, w.sa1, sa3)
+
+
+def sc_malformed(run):
+    import random
+    rng = random.Random(20)
+    w = World(run).handshake()
+    w.sa1.start_dpd_at = time.time() - 1
+    good = bytes(w.sa1.check_dead_peer_detection_timer())
+    variants = [good[:28], good[:40], good[:-1], good + b'\0', bytes(28), b'x' * 10, b'']
+    for pos in (17, 18, 20, 29, 35, len(good) - 1, len(good) - 20):
+        v = bytearray(good)
+        v[pos] ^= 0x41
+        variants.append(bytes(v))
+    for _ in range(6):
+        variants.append(bytes(rng.randrange(256) for _ in range(rng.choice((28, 60, 120)))))
+    for v in variants:
+        for sa in (w.sa2, w.sa1):
+            try:
+                sa.process_message(v)
+            except Exception:
+                # what escapes process_message is the controller's business (C17); its text is logged there with {ex}
+                logging.warning(f'Could not parse the message received for IKE_SA={sa}: {traceback.format_exc()}. Omitting.')
+    # a fresh responder fed with garbage and with a truncated IKE_SA_INIT
+    w2 = World(run)
+    tsi, tsr = w2.ts()
+    init = bytes(w2.sa1.process_acquire(tsi, tsr, 1))
+    for v in (init[:100], init[:-3], init[:28] + bytes(len(init) - 28)):
+        try:
+            w2.sa2.process_message(v)
+        except Exception:
+            logging.warning(f'Could not parse the message: {traceback.format_exc()}. Omitting.')
+
+
+def sc_internal_error(run):
+    # the kernel (mocked xfrm) refuses: responder side during IKE_AUTH, then initiator side
+    w = World(run)
+    tsi, tsr = w.ts()
+    m1 = w.sa1.process_acquire(tsi, tsr, 1)
+    m2 = w.sa2.process_message(m1)
+    m3 = w.sa1.process_message(m2)
+    run.send_recv.side_effect = OSError(105, 'No buffer space available (mocked kernel)')
+    m4 = w.sa2.process_message(m3)
+    run.send_recv.side_effect = None
+    if m4 is not None:
+        w.sa1.process_message(m4)
+    w = World(run)
+    m1 = w.sa1.process_acquire(tsi, tsr, 1)
+    m2 = w.sa2.process_message(m1)
+    m3 = w.sa1.process_message(m2)
+    m4 = w.sa2.process_message(m3)
+    run.send_recv.side_effect = RuntimeError('mocked xfrm failure on the initiator')
+    try:
+        w.sa1.process_message(m4)
+    except Exception:
+        logging.error(f'Unexpected error while processing an event: {traceback.format_exc()}')
+    run.send_recv.side_effect = None
+
+
+def sc_retransmissions(run):
+    from ikesa import IkeSa
+    w = World(run).handshake()
+    tsi, tsr = w.ts()
+    w.sa1.process_acquire(tsi, tsr, 1)
+    for _ in range(IkeSa.MAX_RETRANSMISSIONS + 1):
+        w.sa1.retransmit_at = time.time() - 1
+        data = w.sa1.check_retransmission_timer()
+        if data is not None:
+            w.sa2.process_message(data)
+
+
+def sc_controller_dispatch(run):
+    """the controller's dispatch path (its logging.* sites) with a socket-less controller object"""
+    import ikesacontroller
+    w = World(run)
+    ctl = ikesacontroller.IkeSaController.__new__(ikesacontroller.IkeSaController)
+    ctl.ike_sas = []
+    ctl.configuration = w.configuration
+    ctl.my_addresses = [w.ip1, w.ip2]
+    ctl.cookie_threshold = 10
+    ctl.cookie_secret = COOKIE_SECRET
+    run.secrets.add('cookie secret', COOKIE_SECRET)
+    tsi, tsr = w.ts()
+    init = w.sa1.process_acquire(tsi, tsr, 1)
+    for data in (bytes(init), b'short', bytes(init)[:27], bytes(40)):
+        try:
+            res = ctl.dispatch_message(data, w.ip2, w.ip1)
+            if res:
+                nxt = w.sa1.process_message(res)
+                if nxt:
+                    res2 = ctl.dispatch_message(nxt, w.ip2, w.ip1)
+                    if res2:
+                        w.sa1.process_message(res2)
+        except Exception:
+            logging.error(f'Unexpected error while processing an event: {traceback.format_exc()}')
+
+
+SCENARIOS = [
+    ('handshake-psk', sc_handshake), ('handshake-rsa', sc_handshake_rsa),
+    ('create-child-with-ke', sc_create_child_with_ke), ('rekey-child', sc_rekey_child),
+    ('rekey-ike-sa', sc_rekey_ike_sa), ('informational-dpd-delete', sc_informational),
+    ('auth-failed-wrong-psk', sc_wrong_psk), ('auth-failed-wrong-psk-responder', sc_wrong_psk_responder),
+    ('no-proposal-chosen-init', sc_no_proposal_init), ('no-proposal-chosen-auth', sc_no_proposal_auth),
+    ('invalid-ke-init', sc_invalid_ke), ('invalid-ke-child', sc_child_invalid_ke),
+    ('ts-unacceptable', sc_ts_unacceptable), ('cookie', sc_cookie), ('malformed-messages', sc_malformed),
+    ('internal-error-xfrm-raises', sc_internal_error), ('retransmissions', sc_retransmissions),
+    ('controller-dispatch', sc_controller_dispatch),
+]
+MUST_DUMP = {   # secrets that the DEBUG dumps of a successful handshake must show (sanity check of the detector)
+    'handshake-psk': {'IKE sk_d', 'IKE sk_ai', 'IKE sk_ar', 'IKE sk_ei', 'IKE sk_er', 'IKE sk_pi', 'IKE sk_pr',
+                      'CHILD sk_ei', 'CHILD sk_ai', 'DH shared secret', 'SKEYSEED'},
+}
+
+
+def run_scenario(name, fn):
+    """-> (Run, error text or None)"""
+    with Run() as run:
+        err = None
+        try:
+            fn(run)
+        except Exception:
+            err = traceback.format_exc()
+    return run, err
+
+
+def run_suite_tests():
+    """deep mode: the methods of /repo/test_ikesa.py::TestIkeSa as additional scenarios (when importable)"""
+    import importlib
+    import unittest
+    out = []
+    try:
+        with Run():
+            mod = importlib.import_module('test_ikesa')
+    except Exception:
+        return out
+    names = [n for n in dir(mod.TestIkeSa) if n.startswith('test_')]
+    for n in sorted(names):
+        def fn(run, n=n):
+            case = mod.TestIkeSa(n)
+            res = unittest.TestResult()
+            case.run(res)       # whether the test passes is not our business: only what it logs
+            for c in (getattr(case, 'confdict', None) or {}).values():
+                for a in ('my_auth', 'peer_auth'):
+                    run.secrets.add('PSK (suite)', (c.get(a) or {}).get('psk'))
+        out.append(('suite:' + n, fn))
+    return out
+
+
+def leak_failures(ctx, name, run):
+    fails = []
+    for level, label, form, text, path, line in run.leaks()[:3]:
+        fails.append(Failure('property', 'log:secret-at-info',
+                             f'scenario {name}: {level} record ({path}:{line}) contains {label} in {form} form: '
+                             f'{text[:300]!r}', {'kind': 'scenario', 'scenario': name, 'level': level,
+                                                 'secret': label, 'form': form, 'record': text[:1000]}))
+    return fails
+
+
+def site_index(facts):
+    """(file, line) -> level for every line covered by a logging call of the regenerated list"""
+    idx = {}
+    for f, q, ln, lv, names, ex, end in facts:
+        for line in range(ln, end + 1):
+            idx.setdefault((f, line), set()).add(lv)
+    return idx
+
+
+def correspond(ctx):
+    """tie between the regenerated site list and the running code: every record emitted while the scenarios run
+    comes from a call site of the list, with the level the list gives it"""
+    facts = collect(core.REPO)
+    idx = site_index(facts.logs_ext)
+    sink_fn = pyast.Src(os.path.join(core.REPO, 'ikesa.py')).func('IkeSa.log_msg')
+    sink = (sink_fn.lineno, sink_fn.end_lineno)
+    fails = []
+    repo_files = set(MODULES)
+    for name, fn in SCENARIOS:
+        run, err = run_scenario(name, fn)
+        ctx.case({'scenario': name, 'records': len(run.capture.records)}, nontrivial=True, sample=len(ctx.samples) < 4)
+        if err:
+            ctx.notes.append(f'scenario {name} ended with {err.strip().splitlines()[-1][:200]}')
+            ctx.count('scenario-ended-with-exception')
+        for fname, line, level in run.wrapper_calls:
+            ctx.count('record:ikesa-wrapper:%d' % level)
+            if level not in idx.get((fname, line), ()):
+                fails.append(Failure('correspondence', 'log:unknown-site', f'scenario {name}: IkeSa.log_* called from '
+                                     f'{fname}:{line} at level {level}, not in Gen/LogFacts.v with that level',
+                                     {'kind': 'site', 'file': fname, 'line': line, 'level': level}))
+        for levelno, text, path, line in run.capture.records:
+            fname = os.path.basename(path)
+            if fname not in repo_files or os.path.dirname(os.path.abspath(path)) != os.path.abspath(core.REPO):
+                continue            # records the harness itself emits
+            if fname == 'ikesa.py' and sink[0] <= line <= sink[1]:
+                continue            # the logging.log inside the pinned IkeSa.log_msg (its callers: wrapper_calls)
+            ctx.count('record:%s:%d' % (fname, levelno))
+            if levelno not in idx.get((fname, line), ()):
+                fails.append(Failure('correspondence', 'log:unknown-site', f'scenario {name}: record from '
+                                     f'{fname}:{line} at level {levelno} is not in Gen/LogFacts.v with that level',
+                                     {'kind': 'site', 'file': fname, 'line': line, 'level': levelno}))
+        if len(fails) > 5:
+            break
+    return fails[:6]
+
+
+def oracle(ctx, deep):
+    fails = []
+    scenarios = list(SCENARIOS)
+    if deep:
+        scenarios += run_suite_tests()
+    for name, fn in scenarios:
+        run, err = run_scenario(name, fn)
+        n_info = sum(1 for r in run.capture.records if r[0] >= logging.INFO)
+        ctx.case({'oracle-scenario': name, 'records>=INFO': n_info, 'secrets': len(run.secrets.items)},
+                 nontrivial=n_info > 0, sample=len(ctx.samples) < 6)
+        ctx.count('oracle:records>=INFO', n_info)
+        ctx.count('oracle:secrets-known', len(run.secrets.items))
+        if err and not name.startswith('suite:'):
+            ctx.notes.append(f'oracle scenario {name} ended with {err.strip().splitlines()[-1][:200]}')
+        fails += leak_failures(ctx, name, run)
+        want = MUST_DUMP.get(name)
+        if want:
+            seen = run.debug_dump_seen()
+            missing = want - seen
+            if missing:
+                raise RuntimeError(f'detector sanity check failed in {name}: {sorted(missing)} never appear in any '
+                                   f'record although the DEBUG dumps should show them (error: {err})')
+        if len(fails) >= 6:
+            break
+    return fails
+
+
+def replay(ctx, obj):
+    if obj.get('kind') != 'scenario':
+        return []
+    name = obj['scenario']
+    table = dict(SCENARIOS)
+    if name not in table and name.startswith('suite:'):
+        table.update(dict(run_suite_tests()))
+    if name not in table:
+        return []
+    run, err = run_scenario(name, table[name])
+    return leak_failures(ctx, name, run)
+
+
+CHECK = core.Check(
+    'C20', CLUSTER, 'Props/C20.v', translate=translate, correspond=correspond, oracle=oracle, replay=replay,
+    deps=('lib',),
+    rule='static: the complete list of logging calls, raise sites and assignments of the eight modules (a decision over '
+         'all sites, not a sample). dynamic: 18 scenarios with two real IkeSa objects (handshake PSK/RSA, CREATE_CHILD_SA '
+         'with KE, CHILD/IKE rekey, DPD, deletes, wrong PSK on either side, NO_PROPOSAL_CHOSEN at INIT and AUTH, '
+         'INVALID_KE at INIT and CHILD, TS_UNACCEPTABLE, COOKIE, 30+ malformed datagrams, kernel (mocked xfrm) failures, '
+         'retransmission until give-up, controller dispatch); thorough/deep adds every method of test_ikesa.TestIkeSa; a '
+         'scenario is non-trivial when it emits records at INFO or above',
+    trusted_base=['Coq 8.16.1 kernel (coqc, vm_compute; no native_compute)',
+                  'py/props/c20.py translator (logging calls, raise sites, assignments, verbosity switch -> '
+                  'Gen/LogFacts.v; fail closed on unclassifiable uses of the logging module; IkeSa.log_* wrappers and '
+                  'exception class constructors pinned)',
+                  'the declared secret names of coq/logs/Taint.v (name-based, intra-procedural taint)',
+                  'dynamic harness py/props/c20.py (secret capture by wrapping the real key-derivation functions; '
+                  'logging.Handler at every level)'],
+    assumptions=['taint is by declared names inside one function: a secret reaching a log call through an object field or '
+                 'a callee under an undeclared name is only covered by the dynamic scan',
+                 'text of exceptions raised by libraries (cryptography, struct, socket, OSError) contains no key material'],
+)
